@@ -206,6 +206,19 @@ theorem C03_sugar_drop_loses_paren_comments :
     commentsOut (Sugar.dropParens ['\n'] c c [] [] c []).1 ++ commentsOut (Sugar.dropParens ['\n'] c c [] [] c []).2 = [] := by
   decide
 
+/-! ## behind the value of a multi-line table field (format_field / format_multiline_table) -/
+
+open StyluaModel.TableField in
+/-- **the comments behind a field's value**: block comments stay behind the value, the separator keeps its own
+comments, line comments are moved behind the separator - every comment of the value and of the separator appears
+once (in that order), whether the separator was written or is added - for trivia lists of any length -/
+theorem C03_table_field (eol : List Char) (vt : List Triv) (sep : Option (List Triv × List Triv)) :
+    commentsOut (Semi.outs (afterField eol vt sep)) =
+      TableFieldLemmas.blocksOf vt ++ (match sep with
+        | some (pl, pt) => SemiLemmas.norm eol (commentsIn pl) ++ SemiLemmas.norm eol (commentsIn pt)
+        | none => []) ++ TableFieldLemmas.linesOf eol vt :=
+  TableFieldLemmas.field_comments eol vt sep
+
 /-! ## non-vacuity -/
 example : commentsOut (load ['\n'] .leading
     [.ws true, .ws true, .comment .line "a  ".toList, .ws true, .comment (.block 1) "b\r\nc".toList, .ws true])
